@@ -417,6 +417,152 @@ def maxmix_rule(P, R):
         R.anchor_missing("C11.maxmix", "init_mix: only %d updates of the maximum mixing fraction found" % n)
 
 
+
+def implicitsides_rule(P, R):
+    """diffuse_implicit, explicit mole bookkeeping of step 3: for every interface (icell, icell+1) the flux `tot1` is subtracted from
+    the giving solution sptr1 and added to the receiving solution sptr2.  Which of the two really is a column cell (and not a boundary
+    solution that must stay constant) is decided by a guard on icell / ilast / the boundary type; the guard is repeated for H, for O,
+    for the negative-moles check and for every other element.  The copies for the same side must agree: a side whose guard differs for
+    one element gives or receives that element on a different set of interfaces than all others, and moles of it vanish or appear at
+    the boundary (sibling cross-check; the guard itself is taken from the code, not assumed)."""
+    RULE = "C11.implicitsides"
+    R.rule(RULE, "diffuse_implicit: all guards of updates of the giving side agree with each other, and all guards of the receiving side agree with each other", minimum=6)
+    f = P.one("Phreeqc::diffuse_implicit")
+
+    def conjuncts(c):
+        c = T.strip_casts(c)
+        if T.is_node(c) and c[0] == "Paren":
+            return conjuncts(c[2])
+        if T.is_node(c) and c[0] == "Bin" and c[2] == "&&":
+            return conjuncts(c[3]) + conjuncts(c[4])
+        return [c]
+
+    def mentions(n, name):
+        return any(y[0] in ("Ref", "Member") and (y[3] if y[0] == "Ref" else y[2]).split("::")[-1] == name for y in T.walk(n) if T.is_node(y))
+
+    def side_writes(n, stop_nested=True):
+        """solutions (local names) whose totals are modified directly in n, not inside a nested guard on ilast"""
+        out = set()
+        if not T.is_node(n):
+            return out
+        if n[0] == "If" and mentions(n[2], "ilast") and stop_nested:
+            return out
+        if n[0] == "Call":
+            nm = T.callee_name(n)
+            o = T.call_obj(n) if nm in ("Set_total_h", "Set_total_o") else None
+            o = T.strip_casts(o) if o is not None else None
+            if T.is_node(o) and o[0] == "Ref":
+                out.add(o[3])
+        if n[0] == "Bin" and n[2] in T.ASSIGN_OPS:
+            for y in T.walk(n[3]):
+                if y[0] == "Call" and T.callee_name(y) == "Get_totals":
+                    o = T.strip_casts(T.call_obj(y))
+                    if T.is_node(o) and o[0] == "Ref":
+                        out.add(o[3])
+        for ch in T.children(n):
+            out |= side_writes(ch)
+        return out
+    def disjuncts(c):
+        c = T.strip_casts(c)
+        if T.is_node(c) and c[0] == "Paren":
+            return disjuncts(c[2])
+        if T.is_node(c) and c[0] == "Bin" and c[2] == "||":
+            return disjuncts(c[3]) + disjuncts(c[4])
+        return [c]
+
+    def canon(c):
+        """order-insensitive text: sorted disjuncts of sorted conjuncts"""
+        return " || ".join(sorted(" && ".join(sorted(" ".join(T.text(k).split()) for k in conjuncts(d))) for d in disjuncts(c)))
+    groups = {}
+    for x in T.walk(f["body"]):
+        if x[0] != "If" or not mentions(x[2], "ilast"):
+            continue
+        guard = [c for c in conjuncts(x[2]) if mentions(c, "ilast")]
+        if len(guard) != 1:
+            continue
+        sides = set()
+        for ch in T.children(x[3]) if T.is_node(x[3]) else ():
+            sides |= side_writes(ch)
+        if T.is_node(x[3]) and x[3][0] != "Compound":
+            sides |= side_writes(x[3])
+        for sd in sides:
+            if sd in ("sptr1", "sptr2"):
+                groups.setdefault(sd, []).append((x[1], canon(guard[0])))
+    if len(groups.get("sptr1", [])) < 3 or len(groups.get("sptr2", [])) < 3:
+        R.anchor_missing(RULE, "diffuse_implicit: guarded updates found: %s" % {k: len(v) for k, v in groups.items()})
+        return
+    for sd, lst in sorted(groups.items()):
+        from collections import Counter
+        common, _ = Counter(t for _, t in lst).most_common(1)[0]
+        for line, txt in lst:
+            inst = "%s@%d" % (sd, line)
+            if txt == common:
+                R.ok(RULE, inst, "guard `%s`" % txt[:90])
+            else:
+                R.violation(RULE, inst, "this update of the %s solution is guarded by `%s` while the other %d updates of that side use `%s`: for this element the side changes on a "
+                            "different set of interfaces than for all others, so its moles are lost or created at a column end" % (
+                                "giving" if sd == "sptr1" else "receiving", txt[:100], len(lst) - 1, common[:100]), file=f["file"], line=line, function=f["q"])
+
+
+
+def pairreset_rule(P, R):
+    """Per-pair accumulators: `if (a) v = x; if (b) v += y;` computes a sum of optional terms for one pair of cells.  When the first
+    condition is false v keeps whatever the previous pair left in it, unless the block assigns v unconditionally before.  In init_mix
+    (v = dav, the harmonic-mean denominator of the dispersive mixing factor) a stale value makes the factor of cell i towards j differ
+    from that of j towards i, and moles appear or vanish at the interface.  The idiom is searched program-wide (it occurs in init_mix
+    only); each occurrence needs an unconditional assignment of v earlier in the same block."""
+    RULE = "C11.pairreset"
+    R.rule(RULE, "an accumulator filled by `if (a) v = x; if (b) v += y;` is assigned unconditionally earlier in the same block (no value carried over from the previous pair of cells)", minimum=4)
+
+    def localref(n):
+        n = T.strip_casts(n)
+        return n[3] if T.is_node(n) and n[0] == "Ref" and n[2] == "local" else None
+
+    def single(st):
+        if T.is_node(st) and st[0] == "Compound" and len(st[2]) == 1:
+            return st[2][0]
+        return st
+    n = 0
+    for k, g in sorted(P.functions.items()):
+        for comp in T.walk(g["body"]):
+            if comp[0] != "Compound":
+                continue
+            st = comp[2]
+            for i, nx in enumerate(st):
+                # the optional second term: `if (b) v += y;`
+                if not (T.is_node(nx) and nx[0] == "If" and not T.is_node(nx[4])):
+                    continue
+                b2 = single(nx[3])
+                if not (T.is_node(b2) and b2[0] == "Bin" and b2[2] in ("+=", "-=") and localref(b2[3])):
+                    continue
+                v = localref(b2[3])
+                # nearest earlier siblings that start v in this block: `if (a) v = x;` (conditional) or `v = ...;` (unconditional)
+                cond_start = uncond = None
+                for p in reversed(st[:i]):
+                    if T.is_node(p) and p[0] == "Bin" and p[2] == "=" and localref(p[3]) == v:
+                        uncond = p
+                        break
+                    if T.is_node(p) and p[0] == "If" and not T.is_node(p[4]):
+                        b = single(p[3])
+                        if T.is_node(b) and b[0] == "Bin" and b[2] == "=" and localref(b[3]) == v:
+                            cond_start = p
+                            continue
+                    if any(localref(t) == v for t, how, line, w in T.writes(p)) if T.is_node(p) else False:
+                        break
+                if cond_start is None and uncond is None:
+                    continue            # a running sum that is not started in this block
+                n += 1
+                inst = "%s:%s@%d" % (g["q"].split("::")[-1], v, nx[1])
+                if uncond is not None:
+                    R.ok(RULE, inst, "%s assigned unconditionally at line %d" % (v, uncond[1]))
+                else:
+                    R.violation(RULE, inst, "`if (%s) %s = ...; if (...) %s += ...;` without an unconditional assignment of %s before it in the block: when the first condition is false the "
+                                "value of the previous pair of cells is used, the two mixing factors of one interface differ and the column gains or loses moles" % (
+                                    T.text(cond_start[2])[:40], v, v, v), file=g["file"], line=cond_start[1], function=g["q"])
+    if n < 4:
+        R.anchor_missing(RULE, "only %d occurrences of the pair-accumulator idiom (init_mix: 4)" % n)
+
+
 def run(P, R, tier):
     mixwater_rule(P, R)
     maxmix_rule(P, R)
@@ -424,6 +570,8 @@ def run(P, R, tier):
     wholename_rule(P, R)
     park_rule(P, R)
     kinmix_rule(P, R)
+    implicitsides_rule(P, R)
+    pairreset_rule(P, R)
     R.undecided += ["conservation of the column inventory over shifts (mixing-factor arithmetic)", "bounded mixing / convexity",
                     "stagnant zones, multicomponent diffusion, boundary conditions, reactive solids"]
     R.rule("C11.shift", "in-place advective shift loops over the solution store walk against the copy direction (each source is read before it is overwritten)", minimum=2)
